@@ -4,7 +4,8 @@
 EXTENDS Integers, Sequences, FiniteSets, TLC, Json, IOUtils
 CONSTANTS TP, Drift, Delay, TLNum, TLDen
 Trace == ndJsonDeserialize(IOEnv.TRACE_FILE)
-VARIABLES l, cons, meta, latest, now, last
+VARIABLES l, cons, meta, latest, now, last,
+          seenAt   \* ground truth kept by the trace itself: the block time at which each stored height (re)entered the store
 ValSets == {}
 Heights == {}
 Times == {}
@@ -17,7 +18,7 @@ VSet(r) == [v \in DOMAIN r |-> r[v]]
 B_cons(k) == LET f == FnOf(ln(k).st.cons) IN [h \in DOMAIN f |-> [time |-> f[h].time, root |-> f[h].root, next |-> VSet(f[h].next)]]
 Hd(a) == [height |-> a.height, rev |-> a.rev, time |-> a.time, vals |-> VSet(a.vals), next |-> VSet(a.next), signers |-> SetOf(a.signers),
           th |-> a.th, tvals |-> VSet(a.tvals), root |-> a.root]
-TInit == l = 0 /\ cons = <<>> /\ meta = <<>> /\ latest = 0 /\ now = 0 /\ last = [act |-> "None", res |-> "ok"]
+TInit == l = 0 /\ cons = <<>> /\ meta = <<>> /\ latest = 0 /\ now = 0 /\ last = [act |-> "None", res |-> "ok"] /\ seenAt = <<>>
 Report(k, name, holds) == holds \/ PrintT(<<"VIOL", k, name>>)
 IsStep(k) == ln(k).ev # "Reset"
 Judge(k) ==
@@ -25,6 +26,8 @@ Judge(k) ==
   /\ Report(k, "C07.LatestHasCons", LatestHasCons')
   (* proofs are honoured only against a stored height not above the latest and only after the delay *)
   /\ Report(k, "C07.ProofGate", \A e \in SetOf(ln(k).verify) : (e[2] = "pass") => VerifyOK(e[1])')
+  (* ... the delay counted from the block in which the height was really stored (by an update or by a governance upgrade) *)
+  /\ Report(k, "C07.DelaySinceStored", \A e \in SetOf(ln(k).verify) : (e[2] = "pass") => (e[1] \in DOMAIN seenAt' /\ now' >= seenAt'[e[1]] + Delay))
   /\ IsStep(k) =>
      /\ Report(k, "C07.AcceptedIsSound", (ln(k).ev = "Update" /\ ln(k).res = "ok") => Sound(Hd(ln(k).args.hd)))
      /\ Report(k, "C07.StoresExactly", (ln(k).ev = "Update" /\ ln(k).res = "ok") =>
@@ -45,6 +48,10 @@ TNext == LET k == l + 1 IN
   /\ l < Len(Trace) /\ l' = k
   /\ cons' = B_cons(k) /\ meta' = FnOf(ln(k).st.meta) /\ latest' = ln(k).st.latest /\ now' = ln(k).st.now
   /\ last' = [act |-> ln(k).ev, res |-> ln(k).res]
+  /\ seenAt' = LET C == B_cons(k)  t == ln(k).st.now IN
+                 [h \in DOMAIN C |-> IF ln(k).ev # "Reset" /\ h \in DOMAIN cons /\ h \in DOMAIN seenAt /\ cons[h] = C[h]
+                                         /\ ~(ln(k).ev = "Upgrade" /\ ln(k).res = "ok" /\ h = ln(k).st.latest)
+                                      THEN seenAt[h] ELSE t]
   /\ Judge(k) /\ Conform(k)
-TSpec == TInit /\ [][TNext]_<<l, vars>>
+TSpec == TInit /\ [][TNext]_<<l, vars, seenAt>>
 =============================================================================
